@@ -93,12 +93,44 @@ Proof.
   simpl in H. apply andb_true_iff in H as (H1 & H2). rewrite IH, (alg_part_same e e' p Hs H1); auto.
 Qed.
 
+(* the propositional check is sound for every configuration and iteration *)
+Definition valuation (e : env) (i : nat) : list bool :=
+  [e_aflag e FSeedSet; e_aflag e FProgressBar; e_aflag e FRandomOrder;
+   e_lflag e LHasManager; e_lflag e LHasCurrentIteration; e_lflag e LPathNone;
+   geval e i (GPerSet PerPrint); geval e i (GPerSet PerSave); geval e i (GPerSet PerPlot); geval e i (GPerSet PerPlotPatients);
+   geval e i GIterZero;
+   geval e i (GIterDiv PerPrint); geval e i (GIterDiv PerSave); geval e i (GIterDiv PerPlot); geval e i (GIterDiv PerPlotPatients)].
+
+Lemma gbits_valuation e i g : gbits (valuation e i) g = geval e i g.
+Proof.
+  induction g; try reflexivity.
+  - destruct f; reflexivity.
+  - destruct f; reflexivity.
+  - destruct p; reflexivity.
+  - destruct p; reflexivity.
+  - simpl. rewrite IHg; auto.
+  - simpl. rewrite IHg1, IHg2; auto.
+  - simpl. rewrite IHg1, IHg2; auto.
+Qed.
+
+Lemma all_bits_complete : forall n v, length v = n -> In v (all_bits n).
+Proof.
+  induction n; intros v H; destruct v as [|b t]; simpl in *; try discriminate; auto.
+  apply in_or_app. destruct b; [right|left]; apply in_map; apply IHn; lia.
+Qed.
+
+Lemma gimplies_sound g h e i : gimplies g h = true -> geval e i g = true -> geval e i h = true.
+Proof.
+  unfold gimplies. intros H Hg. rewrite forallb_forall in H.
+  assert (Hin : In (valuation e i) (all_bits n_atoms)) by (apply all_bits_complete; reflexivity).
+  specialize (H _ Hin).
+  rewrite !gbits_valuation, Hg in H. exact H.
+Qed.
+
 Lemma needs_manager_off e i g : e_lflag e LHasManager = false -> needs_manager g = true -> geval e i g = false.
 Proof.
-  intros Hoff. induction g; simpl; intros H; try discriminate.
-  - destruct f; try discriminate. auto.
-  - apply orb_true_iff in H as [H|H]; [rewrite IHg1 | rewrite IHg2]; auto. apply andb_false_r.
-  - apply andb_true_iff in H as (H1 & H2). rewrite IHg1, IHg2; auto.
+  intros Hoff H. destruct (geval e i g) eqn:E; auto.
+  pose proof (gimplies_sound g (GL LHasManager) e i H E) as H1. simpl in H1. congruence.
 Qed.
 
 (* without an output manager no observer call is reached *)
@@ -237,40 +269,6 @@ Proof.
       split; auto. exists g'; split; auto. apply in_or_app; auto.
     + destruct (IHp2 (GAnd path (GNot g)) i k H2) as (E & g' & Hg & Hv); auto. { simpl. rewrite Hp, Eg; auto. }
       split; auto. exists g'; split; auto. apply in_or_app; auto.
-Qed.
-
-(* the propositional check is sound for every configuration and iteration *)
-Definition valuation (e : env) (i : nat) : list bool :=
-  [e_aflag e FSeedSet; e_aflag e FProgressBar; e_aflag e FRandomOrder;
-   e_lflag e LHasManager; e_lflag e LHasCurrentIteration; e_lflag e LPathNone;
-   geval e i (GPerSet PerPrint); geval e i (GPerSet PerSave); geval e i (GPerSet PerPlot); geval e i (GPerSet PerPlotPatients);
-   geval e i GIterZero;
-   geval e i (GIterDiv PerPrint); geval e i (GIterDiv PerSave); geval e i (GIterDiv PerPlot); geval e i (GIterDiv PerPlotPatients)].
-
-Lemma gbits_valuation e i g : gbits (valuation e i) g = geval e i g.
-Proof.
-  induction g; try reflexivity.
-  - destruct f; reflexivity.
-  - destruct f; reflexivity.
-  - destruct p; reflexivity.
-  - destruct p; reflexivity.
-  - simpl. rewrite IHg; auto.
-  - simpl. rewrite IHg1, IHg2; auto.
-  - simpl. rewrite IHg1, IHg2; auto.
-Qed.
-
-Lemma all_bits_complete : forall n v, length v = n -> In v (all_bits n).
-Proof.
-  induction n; intros v H; destruct v as [|b t]; simpl in *; try discriminate; auto.
-  apply in_or_app. destruct b; [right|left]; apply in_map; apply IHn; lia.
-Qed.
-
-Lemma gimplies_sound g h e i : gimplies g h = true -> geval e i g = true -> geval e i h = true.
-Proof.
-  unfold gimplies. intros H Hg. rewrite forallb_forall in H.
-  assert (Hin : In (valuation e i) (all_bits n_atoms)) by (apply all_bits_complete; reflexivity).
-  specialize (H _ Hin).
-  rewrite !gbits_valuation, Hg in H. exact H.
 Qed.
 
 Theorem observers_only_when_guarded e p o i :
